@@ -110,7 +110,7 @@ class Overlay:
 
 class Item:
     """one generated item"""
-    __slots__ = ('entry', 'key', 'kind', 'container', 'impl_header', 'modpath', 'full', 'stub', 'ratio', 'identical', 'log', 'name', 'ghost_counts', 'code_tokens', 'canary_full', 'n_canaries', 'header_tokens', 'variant', 'assumed', 'out_tokens', 'body_index', 'is_mp', 'impl_ghost')
+    __slots__ = ('entry', 'key', 'kind', 'container', 'impl_header', 'modpath', 'full', 'stub', 'ratio', 'identical', 'log', 'name', 'ghost_counts', 'code_tokens', 'canary_full', 'n_canaries', 'header_tokens', 'variant', 'assumed', 'out_tokens', 'body_index', 'is_mp', 'degraded_full', 'impl_ghost')
 
 
 def _proof_fn_stub(text):
@@ -250,6 +250,7 @@ class Generator:
             it.out_tokens = None
             it.body_index = None
             it.is_mp = False
+            it.degraded_full = None
             it.impl_ghost = None
             it.assumed = 'assumed' in e.opts
             if e.kind in ('raw', 'spec'):
@@ -462,6 +463,9 @@ class Generator:
         it.out_tokens = out
         it.body_index = b
         it.full = join(out)
+        # degraded variant (used only when the transplanted ghost text no longer compiles against changed code):
+        # the contract header on the fresh body without any inner ghost text
+        it.degraded_full = '#[verifier::exec_allows_no_decreases_clause]\n' + join(list(header) + list(body))
         # canary variant: `assert(false)` at the top of the body and at the top of every loop body
         # that carries an invariant; each must be reported as failing (vacuity guard, DESIGN 3.8)
         cpos = [b]
@@ -602,13 +606,14 @@ class Generator:
         m.assumed = it.assumed
         m.is_mp = True
         m.impl_ghost = None
+        m.degraded_full = None
         m.full = join(h2 + b2)
         m.canary_full = m.full
         m.n_canaries = 0
         m.stub = '#[verifier::external_body]\n' + join(h2) + '{ unimplemented!() }\n'
         return m
 
-    def render(self, unit, canary=False):
+    def render(self, unit, canary=False, degrade=()):
         """-> (text, linemap [(first_line, last_line, item)])"""
         if self.items is None:
             self.build_items()
@@ -688,6 +693,8 @@ class Generator:
                     emit(it.full if own else it.stub, it if own else None)
                 else:
                     body = (it.canary_full if canary else it.full) if own else it.stub
+                    if own and it.key in degrade and getattr(it, 'degraded_full', None):
+                        body = it.degraded_full
                     if id(it) in merged_stub:
                         body = merged_stub[id(it)]
                     if it.impl_header is not None:
